@@ -31,7 +31,8 @@ Expected == OciApply(ToOci(Core(E.orig, ContFields)), Core(E.adj, DOMAIN EmptyAd
 
 Labels ==
   LET R == E.results
-      wrong == {i \in DOMAIN R : Core(R[i], OciFields) # Expected}
+      wrong == {i \in DOMAIN R : \/ NoSwap(Core(R[i], OciFields)) # NoSwap(Expected)
+                                  \/ ~SwapOK(R[i], Expected, ToOci(Core(E.orig, ContFields)))}
   IN (IF \E i \in DOMAIN E.gerrs : E.gerrs[i] # "" THEN {"C13-generator-error"} ELSE {})
      \cup (IF wrong # {} THEN {"C13-result"} ELSE {})
      \cup (IF \E i \in DOMAIN E.rests : E.rests[i] # E.rest0 THEN {"C13-frame"} ELSE {})
@@ -48,7 +49,8 @@ Labels ==
 
 Detail ==
   LET R == E.results
-      wrong == {i \in DOMAIN R : Core(R[i], OciFields) # Expected}
+      wrong == {i \in DOMAIN R : \/ NoSwap(Core(R[i], OciFields)) # NoSwap(Expected)
+                                  \/ ~SwapOK(R[i], Expected, ToOci(Core(E.orig, ContFields)))}
   IN <<UNION {Diff(R[i], Expected, OciFields) : i \in wrong}, Cardinality(wrong), Len(R)>>
 
 TOci ==
